@@ -19,7 +19,8 @@ CONSTANTS LeafTypes,     \* subset of PaletteTypes used for leaves
           MaxFields,     \* fields per struct
           MaxDepth,      \* nesting levels (1 = flat)
           MaxSub,        \* sub-structures (embedded or named) per struct
-          MaxTotal       \* fields in the whole tree
+          MaxTotal,      \* fields in the whole tree
+          TypePrefix     \* prepended to the generated type names (two structures in one scope need different type names)
 
 VARIABLE sh
 
@@ -53,11 +54,11 @@ AddLeaf == \E j \in 1..SpineDepth(sh) : LET st == StructAt(sh, j)  n == CountFie
 OpenEmbedded == \E j \in 1..SpineDepth(sh) : LET st == StructAt(sh, j)  n == CountFields(sh) + 1 IN
              /\ Room(st) /\ j < MaxDepth /\ NumSub(st) < MaxSub
              /\ \E k \in EmbKinds, tg \in Tags :
-                  sh' = AppendAt(sh, j, [name |-> Nm("E", "e", n), tag |-> tg, ty |-> Nm("E", "e", n), emb |-> k, sub |-> <<>>])
+                  sh' = AppendAt(sh, j, [name |-> TypePrefix \o Nm("E", "e", n), tag |-> tg, ty |-> TypePrefix \o Nm("E", "e", n), emb |-> k, sub |-> <<>>])
 OpenNamed == NamedStructs /\ \E j \in 1..SpineDepth(sh) : LET st == StructAt(sh, j)  n == CountFields(sh) + 1 IN
              /\ Room(st) /\ j < MaxDepth /\ NumSub(st) < MaxSub
              /\ \E nm \in LeafNames(st, n), tg \in Tags :
-                  sh' = AppendAt(sh, j, [name |-> nm, tag |-> tg, ty |-> "S" \o ToString(n), emb |-> "no", sub |-> <<>>])
+                  sh' = AppendAt(sh, j, [name |-> nm, tag |-> tg, ty |-> TypePrefix \o "S" \o ToString(n), emb |-> "no", sub |-> <<>>])
 Next == AddLeaf \/ OpenEmbedded \/ OpenNamed
 
 (* a cheap position-weighted checksum, used to draw a seeded sample of the enumerated shapes *)
